@@ -350,10 +350,10 @@ example : valid (.point 1 10) = true ∧ closedForm (.point 1 10) = false ∧
 /-
   ## The shapely pipeline (`buffer_shapely_geometry`) on point sets
 
-  `pipelineSet buf S tb fb maxT` is the composition the function performs (scale by
+  `pipelineSet buf S tb fb m maxT` is the composition the function performs (scale by
   `factor`, GEOS buffer of distance 1 = the parameter `buf`, unscale, clip to
-  `(0, 0, maxT + 1, MAXF)`); the straight-line part is tied to the source by a symbolic trace
-  (`ext_buffer_shapely_geometry = pipelineSkeleton`).  The theorems below are the property for
+  `(0, 0, maxT + m, MAXF)`, `0 ≤ m`; `m = 1` in the source); the straight-line part is tied to the source by a symbolic trace
+  (`ext_buffer_shapely_geometry = pipelineSkeletonSpec`).  The theorems below are the property for
   the six shapely-buffered types *given* what they assume of GEOS (`Extensive`, `CoversDisc ρ`,
   `IsMaxTime`), each evaluated at run time on GEOS's actual output; with the exact unit buffer
   `discBuf` all of them hold (`C11_pipeline_contracts_ideal`) and the result is computed in
@@ -379,16 +379,16 @@ theorem C11_pipeline_scaling (tb fb : Rat) :
    factor_of_pos tb, factor_of_pos fb⟩
 
 /-- the result of the pipeline never leaves the valid domain, whatever GEOS returned -/
-theorem C11_pipeline_in_domain (buf : PSet → PSet) (S : PSet) (tb fb maxT : Rat) (p : Pt)
-    (h : pipelineSet buf S tb fb maxT p) : inDomain p := by
+theorem C11_pipeline_in_domain (buf : PSet → PSet) (S : PSet) (tb fb m maxT : Rat) (p : Pt)
+    (h : pipelineSet buf S tb fb m maxT p) : inDomain p := by
   obtain ⟨⟨h1, _, h3, h4⟩, _⟩ := h
   exact ⟨h1, h3, h4⟩
 
-/-- the clip rectangle's upper time `max_time + 1` never cuts anything: clipping only removes
+/-- the clip rectangle's upper time `max_time + m` (`0 ≤ m`) never cuts anything: clipping only removes
     what lies outside the valid domain -/
-theorem C11_pipeline_clip_is_domain (buf : PSet → PSet) (S : PSet) (tb fb maxT : Rat)
-    (hm : IsMaxTime buf S tb fb maxT) (p : Pt) :
-    pipelineSet buf S tb fb maxT p ↔
+theorem C11_pipeline_clip_is_domain (buf : PSet → PSet) (S : PSet) (tb fb m maxT : Rat)
+    (hm0 : 0 ≤ m) (hm : IsMaxTime buf S tb fb maxT) (p : Pt) :
+    pipelineSet buf S tb fb m maxT p ↔
       inDomain p ∧ ∃ q, buf (scaled tb fb S) q ∧ p = unscalePt tb fb q := by
   constructor
   · rintro ⟨⟨h1, _, h3, h4⟩, q, hq, rfl⟩
@@ -399,31 +399,31 @@ theorem C11_pipeline_clip_is_domain (buf : PSet → PSet) (S : PSet) (tb fb maxT
     simp only [clipRect]; linarith
 
 /-- the result contains the original (if GEOS's buffer contains what it buffers) -/
-theorem C11_pipeline_contains (buf : PSet → PSet) (S : PSet) (tb fb maxT : Rat)
-    (hext : Extensive buf) (hm : IsMaxTime buf S tb fb maxT)
-    (hS : ∀ p, S p → inDomain p) : ∀ p, S p → pipelineSet buf S tb fb maxT p := by
+theorem C11_pipeline_contains (buf : PSet → PSet) (S : PSet) (tb fb m maxT : Rat)
+    (hm0 : 0 ≤ m) (hext : Extensive buf) (hm : IsMaxTime buf S tb fb maxT)
+    (hS : ∀ p, S p → inDomain p) : ∀ p, S p → pipelineSet buf S tb fb m maxT p := by
   intro p hp
-  rw [C11_pipeline_clip_is_domain buf S tb fb maxT hm]
+  rw [C11_pipeline_clip_is_domain buf S tb fb m maxT hm0 hm]
   exact ⟨hS p hp, scalePt tb fb p, hext _ _ ⟨p, hp, rfl⟩, (unscale_scale tb fb p).symm⟩
 
 /-- the result contains every point of the domain that lies within `ρ` buffer widths of a point of
     the original (if GEOS's buffer contains the `ρ`-disc around every point it buffers): the
     unit distance of the scaled space is one time buffer along the time axis and one frequency
     buffer along the frequency axis -/
-theorem C11_pipeline_covers_buffers (buf : PSet → PSet) (S : PSet) (ρ tb fb maxT : Rat)
-    (hdisc : CoversDisc ρ buf) (hm : IsMaxTime buf S tb fb maxT)
+theorem C11_pipeline_covers_buffers (buf : PSet → PSet) (S : PSet) (ρ tb fb m maxT : Rat)
+    (hm0 : 0 ≤ m) (hdisc : CoversDisc ρ buf) (hm : IsMaxTime buf S tb fb maxT)
     (c p : Pt) (hc : S c) (hp : inDomain p) (hw : withinBuffers ρ tb fb p c) :
-    pipelineSet buf S tb fb maxT p := by
-  rw [C11_pipeline_clip_is_domain buf S tb fb maxT hm]
+    pipelineSet buf S tb fb m maxT p := by
+  rw [C11_pipeline_clip_is_domain buf S tb fb m maxT hm0 hm]
   refine ⟨hp, scalePt tb fb p, ?_, (unscale_scale tb fb p).symm⟩
   exact hdisc _ (scalePt tb fb c) _ ⟨c, hc, rfl⟩ ((dist2_scale _ tb fb p c).mpr hw)
 
 /-- with an exact unit buffer the result is exactly the set of points of the domain within one
     time buffer / frequency buffer (elliptically) of the original -/
-theorem C11_pipeline_exact_ideal (S : PSet) (tb fb maxT : Rat)
-    (hm : IsMaxTime discBuf S tb fb maxT) (p : Pt) :
-    pipelineSet discBuf S tb fb maxT p ↔ inDomain p ∧ ∃ c, S c ∧ withinBuffers 1 tb fb p c := by
-  rw [C11_pipeline_clip_is_domain discBuf S tb fb maxT hm]
+theorem C11_pipeline_exact_ideal (S : PSet) (tb fb m maxT : Rat)
+    (hm0 : 0 ≤ m) (hm : IsMaxTime discBuf S tb fb maxT) (p : Pt) :
+    pipelineSet discBuf S tb fb m maxT p ↔ inDomain p ∧ ∃ c, S c ∧ withinBuffers 1 tb fb p c := by
+  rw [C11_pipeline_clip_is_domain discBuf S tb fb m maxT hm0 hm]
   constructor
   · rintro ⟨hd, q, ⟨c', ⟨c, hc, rfl⟩, hq⟩, rfl⟩
     refine ⟨hd, c, hc, ?_⟩
@@ -437,14 +437,15 @@ theorem C11_pipeline_exact_ideal (S : PSet) (tb fb maxT : Rat)
 /-- larger buffers give supersets (exact unit buffer).  The hypotheses `hzt`, `hzf` exclude a zero
     buffer against a positive one below 1e-9: the zero buffer is the factor 1e9, i.e. behaves as
     the buffer 1e-9 (see `C11_pipeline_zero_vs_tiny_buffer`) -/
-theorem C11_pipeline_monotone_ideal (S : PSet) (tb fb tb' fb' maxT maxT' : Rat)
+theorem C11_pipeline_monotone_ideal (S : PSet) (tb fb tb' fb' m m' maxT maxT' : Rat)
     (h1 : 0 ≤ tb) (h2 : 0 ≤ fb) (ht : tb ≤ tb') (hf : fb ≤ fb')
     (hzt : tb = 0 → tb' = 0 ∨ 1 / 1000000000 ≤ tb') (hzf : fb = 0 → fb' = 0 ∨ 1 / 1000000000 ≤ fb')
+    (hm0 : 0 ≤ m) (hm0' : 0 ≤ m')
     (hm : IsMaxTime discBuf S tb fb maxT) (hm' : IsMaxTime discBuf S tb' fb' maxT') :
-    ∀ p, pipelineSet discBuf S tb fb maxT p → pipelineSet discBuf S tb' fb' maxT' p := by
+    ∀ p, pipelineSet discBuf S tb fb m maxT p → pipelineSet discBuf S tb' fb' m' maxT' p := by
   intro p hp
-  rw [C11_pipeline_exact_ideal S tb fb maxT hm] at hp
-  rw [C11_pipeline_exact_ideal S tb' fb' maxT' hm']
+  rw [C11_pipeline_exact_ideal S tb fb m maxT hm0 hm] at hp
+  rw [C11_pipeline_exact_ideal S tb' fb' m' maxT' hm0' hm']
   obtain ⟨hd, c, hc, hw⟩ := hp
   exact ⟨hd, c, hc, within_mono tb fb tb' fb' p c (factor_anti tb tb' h1 ht hzt) (factor_anti fb fb' h2 hf hzf) hw⟩
 
@@ -454,7 +455,7 @@ theorem C11_pipeline_zero_vs_tiny_buffer :
     ∃ (S : PSet) (tb tb' fb maxT maxT' : Rat) (p : Pt),
       0 ≤ tb ∧ tb ≤ tb' ∧ 0 ≤ fb ∧ (∀ p, S p → inDomain p) ∧
       IsMaxTime discBuf S tb fb maxT ∧ IsMaxTime discBuf S tb' fb maxT' ∧
-      pipelineSet discBuf S tb fb maxT p ∧ ¬ pipelineSet discBuf S tb' fb maxT' p := by
+      pipelineSet discBuf S tb fb 1 maxT p ∧ ¬ pipelineSet discBuf S tb' fb 1 maxT' p := by
   have hmax : ∀ tb : Rat, 1 ≤ factor tb →
       IsMaxTime discBuf (fun p => p = ((1 : Rat), (1000 : Rat))) tb 10 2 := by
     intro tb h1 q hq
@@ -477,10 +478,10 @@ theorem C11_pipeline_zero_vs_tiny_buffer :
     refine ⟨by norm_num, by norm_num, ?_⟩
     show (1000 : Rat) ≤ MAXF
     decide +kernel
-  · rw [C11_pipeline_exact_ideal _ _ _ _ m0]
+  · rw [C11_pipeline_exact_ideal _ _ _ _ _ (by norm_num) m0]
     refine ⟨⟨by norm_num, by norm_num, by show (1000 : Rat) ≤ MAXF; decide +kernel⟩, _, rfl, ?_⟩
     simp only [withinBuffers, f0, f10]; norm_num
-  · rw [C11_pipeline_exact_ideal _ _ _ _ m1]
+  · rw [C11_pipeline_exact_ideal _ _ _ _ _ (by norm_num) m1]
     rintro ⟨_, c, rfl, hw⟩
     simp only [withinBuffers, f1, f10] at hw
     norm_num at hw
@@ -489,10 +490,10 @@ theorem C11_pipeline_zero_vs_tiny_buffer :
 /-- bounds of the result: every side moves outwards by at least `ρ` buffers or reaches the edge
     of the domain -/
 theorem C11_pipeline_bounds_extend (buf : PSet → PSet) (S : PSet) (g : Geom) (b rb : Bounds)
-    (ρ tb fb maxT : Rat) (hρ : 0 ≤ ρ) (h1 : 0 ≤ tb) (h2 : 0 ≤ fb)
+    (ρ tb fb m maxT : Rat) (hρ : 0 ≤ ρ) (h1 : 0 ≤ tb) (h2 : 0 ≤ fb) (hm0 : 0 ≤ m)
     (hc : closedForm g = false) (hv : valid g = true) (hb : g.bounds = some b)
     (hS : ∀ c ∈ g.boundPts, S c) (hdisc : CoversDisc ρ buf) (hm : IsMaxTime buf S tb fb maxT)
-    (hrb : ∀ p, pipelineSet buf S tb fb maxT p → inRect rb p) :
+    (hrb : ∀ p, pipelineSet buf S tb fb m maxT p → inRect rb p) :
     rb.st ≤ max (b.st - ρ * tb) 0 ∧ rb.lo ≤ max (b.lo - ρ * fb) 0 ∧
     b.en + ρ * tb ≤ rb.en ∧ min (b.hi + ρ * fb) MAXF ≤ rb.hi := by
   have hM := maxf_nonneg
@@ -507,7 +508,7 @@ theorem C11_pipeline_bounds_extend (buf : PSet → PSet) (S : PSet) (g : Geom) (
       (-(ρ * fb) ≤ p.2 - c.2 ∧ p.2 - c.2 ≤ ρ * fb ∧ p.1 = c.1) → inRect rb p := by
     intro c p hcm hp hcase
     apply hrb
-    apply C11_pipeline_covers_buffers buf S ρ tb fb maxT hdisc hm c p (hS c hcm) hp
+    apply C11_pipeline_covers_buffers buf S ρ tb fb m maxT hm0 hdisc hm c p (hS c hcm) hp
     unfold withinBuffers
     rcases hcase with ⟨a1, a2, a3⟩ | ⟨a1, a2, a3⟩
     · have := axis_within ρ tb (p.1 - c.1) hρ h1 a1 a2
@@ -539,8 +540,10 @@ theorem C11_pipeline_bounds_extend (buf : PSet → PSet) (S : PSet) (g : Geom) (
 
 -- non-vacuity of the pipeline model: the skeleton on concrete numbers (time buffer 2 → factor 1/2,
 -- zero frequency buffer → factor 1e9), and a point of the ideal result
-example : pipelineSkeleton 1 1000 3 4 5 2 0 =
-    ((1 / 2, 1000000000000), 1, (6, 4 / 1000000000), 0, 0, 11, 5000000) := by decide +kernel
+example : pipelineSkeleton 1 1000 3 4 5 11 2 0 =
+    ((1 / 2, 1000000000000), 1, (6, 4 / 1000000000), 0, 0, true, 5000000) := by decide +kernel
+example : pipelineSkeleton 1 1000 3 4 5 11 2 0 = pipelineSkeletonSpec 1 1000 3 4 2 0 := by decide +kernel
+example : (pipelineSkeleton 1 1000 3 4 5 9 2 0).2.2.2.2.2.1 = false := by decide +kernel   -- a clip that cuts
 example : factor (-3) = 1000000000 ∧ factor 0 = 1000000000 ∧ factor 4 = 1 / 4 := by decide +kernel
 example : withinBuffersB 1 2 10 (3, 1000) (1, 1000) = true ∧ withinBuffersB 1 2 10 (3, 1001) (1, 1000) = false := by
   decide +kernel
